@@ -483,15 +483,16 @@ def rule_20_9(rep, fx):
     rep.check(ok, 'R20.9', 'reader_acked_or_lost/removed-only-then', 'remove only under None or wait_until < acked_before',
               'AckWaiter::reader_acked_or_lost takes a reader off the pending set although it is neither lost nor has acknowledged everything waited for: wait_for_acknowledgments '
               'can say yes while a reader is behind', b.where())
-    ie = [(bb, 'term') for bb, t in b.calls() if callee_res(t).endswith('::is_empty') and
+    # the form of the answer (is_empty / len() == 0, not negated) is R20.3; here: the set is queried after the removal
+    ie = [(bb, 'term') for bb, t in b.calls() if callee_res(t).rsplit('::', 1)[-1] in ('is_empty', 'len') and
           term_has(og.of_operand(t['args'][0], bb, 'term'), lambda x: x[0] == 'field' and x[1] == 'readers_pending')]
     ok = bool(ie)
     for r in b.return_blocks():
         v = og.of_local(0, r, 'term')
-        ok = ok and v[0] == 'call' and v[1].endswith('::is_empty') and term_has(v, lambda x: x[0] == 'field' and x[1] == 'readers_pending')
+        ok = ok and term_has(v, lambda x: x[0] == 'call' and x[1].rsplit('::', 1)[-1] in ('is_empty', 'len') and term_has(x, lambda y: y[0] == 'field' and y[1] == 'readers_pending'))
     for rp in removes:
         for r in rets:
             if not P.every_path_passes(rp, r, via_pos=ie):
                 ok = False
-    rep.check(ok, 'R20.9', 'reader_acked_or_lost/answer', 'returns readers_pending.is_empty() taken after the removal',
+    rep.check(ok, 'R20.9', 'reader_acked_or_lost/answer', 'the answer is computed from readers_pending as it is after the removal',
               'AckWaiter::reader_acked_or_lost does not answer with the emptiness of the pending set as it is after this step: completion is reported late, never, or too early', b.where())
